@@ -11,7 +11,8 @@ struct Pat { def: &'static str, inst: fn(&mut Rng) -> Vec<u8> }
 
 fn xored(rng: &mut Rng) -> Vec<u8> { let k = 1 + rng.below(200) as u8; b"secret".iter().map(|b| b ^ k).collect() }
 fn chain(rng: &mut Rng) -> Vec<u8> {
-    let gap = 205 + rng.below(60) as usize; // inside and just outside [210-260]
+    // a jump is split into chained sub-patterns when max - min > 200: gaps inside and just outside [0-300]
+    let gap = if rng.chance(1, 4) { rng.below(8) as usize } else { 40 + rng.below(275) as usize };
     let mut v = b"ABC".to_vec(); v.extend((0..gap).map(|i| b"mnopqrstuv"[i % 10])); v.extend_from_slice(b"DEF"); v
 }
 const POOL: &[Pat] = &[
@@ -22,13 +23,110 @@ const POOL: &[Pat] = &[
     Pat { def: "\"word\" fullword", inst: |r| match r.below(3) { 0 => b" word ".to_vec(), 1 => b"xword ".to_vec(), _ => b"word".to_vec() } },
     Pat { def: "\"secret\" xor", inst: xored },
     Pat { def: "{ 61 62 [2-4] 63 64 }", inst: |r| { let mut v = b"ab".to_vec(); v.extend(std::iter::repeat(b'_').take(1 + r.below(5) as usize)); v.extend_from_slice(b"cd"); v } },
-    Pat { def: "{ 41 42 43 [210-260] 44 45 46 }", inst: chain },
+    Pat { def: "{ 41 42 43 [0-300] 44 45 46 }", inst: chain },
     Pat { def: "/a+b/", inst: |r| { let mut v = vec![b'a'; 1 + r.below(6) as usize]; v.push(b'b'); v } },
     Pat { def: "/x[0-9]{2,5}/", inst: |r| { let mut v = vec![b'x']; v.extend((0..1 + r.below(7)).map(|i| b'0' + (i % 10) as u8)); v } },
     Pat { def: "/\\bfoo\\b/", inst: |r| match r.below(3) { 0 => b" foo ".to_vec(), 1 => b"zfoo ".to_vec(), _ => b"foo".to_vec() } },
     Pat { def: "{ 4D 5A ?? 00 }", inst: |r| vec![0x4d, 0x5a, r.below(256) as u8, 0] },
     Pat { def: "\"base\" base64", inst: |_| b"YmFzZQ".to_vec() },
+    // greedy / variable-length patterns: a block that ends inside an occurrence sees a shorter match at the same start
+    Pat { def: "/abc+/", inst: |r| { let mut v = b"ab".to_vec(); v.extend(std::iter::repeat(b'c').take(1 + r.below(6) as usize)); v } },
+    Pat { def: "/foo(barbaz|bar)/", inst: |r| if r.chance(2, 3) { b"foobarbaz".to_vec() } else { b"foobar".to_vec() } },
+    Pat { def: "/w[0-9]*/", inst: |r| { let mut v = vec![b'w']; v.extend((0..r.below(8)).map(|i| b'0' + (i % 10) as u8)); v } },
+    Pat { def: "/Q.*Z/", inst: |r| { let mut v = vec![b'Q']; v.extend((0..r.below(6)).map(|i| b"Z-=Z+"[(i % 5) as usize])); v.push(b'Z'); v } },
+    Pat { def: "/KLM.{0,300}NOP/", inst: |r| { let gap = if r.chance(1, 4) { r.below(6) as usize } else { 30 + r.below(285) as usize }; let mut v = b"KLM".to_vec(); v.extend((0..gap).map(|i| b"ghijlqrstu"[i % 10])); v.extend_from_slice(b"NOP"); v } },
+    Pat { def: "{ 41 41 [1-4] 42 }", inst: |r| { let mut v = b"AA".to_vec(); v.extend(std::iter::repeat(b'B').take(2 + r.below(4) as usize)); v } },
 ];
+/// patterns of POOL whose occurrences can be found shorter in a block that ends inside them: (index, shortest prefix that matches)
+const GREEDY: &[(usize, usize)] = &[(9, 3), (13, 3), (14, 6), (15, 1), (16, 2), (18, 4)];
+
+type Forced = (Vec<usize>, Vec<u8>, Vec<(usize, usize)>, usize, Vec<(u64, Vec<u8>, bool)>);
+
+/// Directed scenario: an occurrence of a greedy pattern straddles the END of one block (which sees a shorter
+/// match at the same start) and lies inside another, overlapping block with a different base (which sees the
+/// longer one); unrelated occurrences at higher (and lower) offsets are found in further blocks; any delivery order.
+fn gen_straddle(rng: &mut Rng) -> Forced {
+    let (pi, min_len) = *rng.pick(GREEDY);
+    let mut chosen = vec![pi];
+    if rng.chance(1, 3) { let o = rng.below(POOL.len() as u64) as usize; if o != pi { chosen.push(o); } }
+    let flen = 80 + rng.below(160) as usize;
+    let mut file: Vec<u8> = (0..flen).map(|_| b"ghijlnopqrstuy  ._"[rng.below(18) as usize]).collect();
+    // the straddled occurrence: retry until it is longer than the shortest match
+    let mut inst = (POOL[pi].inst)(rng);
+    for _ in 0..8 { if inst.len() > min_len { break; } inst = (POOL[pi].inst)(rng); }
+    let p1 = 12 + rng.below(30) as usize;
+    file[p1..p1 + inst.len()].copy_from_slice(&inst);
+    let end1 = p1 + inst.len();
+    // unrelated occurrences: one or two after it, sometimes one before it
+    let mut others: Vec<(usize, usize)> = vec![];
+    let mut at = end1 + 3 + rng.below(12) as usize;
+    for _ in 0..(1 + rng.below(2)) {
+        let o = (POOL[pi].inst)(rng);
+        if at + o.len() + 2 >= flen { break; }
+        file[at..at + o.len()].copy_from_slice(&o); others.push((at, at + o.len()));
+        at += o.len() + 3 + rng.below(15) as usize;
+    }
+    if rng.chance(1, 3) { let o = (POOL[pi].inst)(rng); if o.len() + 2 < p1 { file[1..1 + o.len()].copy_from_slice(&o); others.push((1, 1 + o.len())); } }
+    // block A ends inside the occurrence (at least the shortest match is visible), block B contains it entirely
+    let cut = if inst.len() > min_len { p1 + min_len + rng.below((inst.len() - min_len) as u64) as usize } else { end1 };
+    let a0 = p1 - rng.below(p1.min(10) as u64 + 1) as usize;
+    let mut b0 = p1 - rng.below(p1.min(12) as u64 + 1) as usize;
+    if b0 == a0 { b0 = if b0 > 0 { b0 - 1 } else { p1.min(1) } }
+    let bend = (end1 + rng.below(20) as usize).min(flen);
+    let mut blocks = vec![(a0, cut - a0), (b0, bend - b0)];
+    for (s0, e0) in &others {
+        let base = s0 - rng.below((*s0).min(4) as u64 + 1) as usize;
+        blocks.push((base, (e0 + rng.below(4) as usize).min(flen) - base));
+    }
+    if rng.chance(1, 4) { blocks.push((0, flen)); }             // the whole file too
+    if rng.chance(1, 4) { blocks.push((a0, 0)); }
+    for i in (1..blocks.len()).rev() { let j = rng.below(i as u64 + 1) as usize; blocks.swap(i, j); }
+    (chosen, file, blocks, *rng.pick(&[0usize, 0, 2, 16]), vec![])
+}
+
+/// Directed scenario for chained patterns (pieces separated by a gap of more than 200 bytes): the whole occurrence
+/// inside a block whose base is not 0, blocks that contain only the head / only the tail / end inside the gap,
+/// sometimes the whole file too; any delivery order.  A chain never completes across blocks.
+fn gen_chain(rng: &mut Rng) -> Forced {
+    let pi = *rng.pick(&[7usize, 17]);
+    let mut chosen = vec![pi];
+    if rng.chance(1, 3) { chosen.push(*rng.pick(&[0usize, 1, 13])); }
+    let inst = (POOL[pi].inst)(rng);
+    let p = 3 + rng.below(40) as usize;
+    let flen = p + inst.len() + 5 + rng.below(60) as usize;
+    let mut file: Vec<u8> = (0..flen).map(|_| b"ghijlqrstuy  ._"[rng.below(15) as usize]).collect();
+    file[p..p + inst.len()].copy_from_slice(&inst);
+    let end = p + inst.len();
+    let b0 = 1 + rng.below(p as u64) as usize;                       // 1 ..= p: a base that is not 0
+    let mut blocks = vec![(b0, (end + rng.below((flen - end) as u64 + 1) as usize) - b0)];
+    let mid = p + 3 + rng.below((inst.len() - 6) as u64) as usize;    // inside the gap
+    if rng.chance(2, 3) { let b = rng.below(p as u64 + 1) as usize; blocks.push((b, mid - b)); }   // head only
+    if rng.chance(2, 3) { blocks.push((mid, flen - mid)); }                                         // tail only
+    if rng.chance(1, 4) { blocks.push((0, flen)); }
+    if rng.chance(1, 4) { blocks.push((p, inst.len())); }                                           // exactly the occurrence
+    for i in (1..blocks.len()).rev() { let j = rng.below(i as u64 + 1) as usize; blocks.swap(i, j); }
+    (chosen, file, blocks, *rng.pick(&[0usize, 0, 3, 16]), vec![])
+}
+
+/// MatchList::add driven through the hook: offsets drawn from a small range so that starts collide
+fn match_list_cases(rng: &mut Rng, n: usize, shards: &mut Shards, stats: &mut Stats) {
+    for i in 0..n {
+        let len = 2 + rng.below(9) as usize;
+        let adds: Vec<(usize, usize, usize, bool)> = (0..len).map(|_| {
+            let base = rng.below(12) as usize;
+            let start = base + rng.below(12) as usize;
+            let end = start + 1 + rng.below(6) as usize;
+            (base, start, end, rng.chance(2, 3))
+        }).collect();
+        let fin = yara_x::Scanner::verif_match_list_with_base(&adds);
+        stats.inc("match_list_cases");
+        if adds.iter().enumerate().any(|(j, a)| adds[..j].iter().any(|b| b.1 == a.1 && b.0 != a.0 && a.2 > b.2 && a.3)) { stats.inc("match_list_longer_same_start_other_base"); }
+        let case = format!("mkCase [] 0%N [] [] [] [] [] [] [({}, {})]",
+            coq_list(&adds, |a| format!("({}, {}, {}, {})", coq_n(a.0 as u64), coq_n(a.1 as u64), coq_n(a.2 as u64), coq_bool(a.3))),
+            coq_list(&fin, |m| format!("({}, {}, {})", coq_n(m.0 as u64), coq_n(m.1 as u64), coq_n(m.2 as u64))));
+        shards.push(case, format!("{{\"match_list\":true,\"index\":{},\"adds_base_start_end_replace\":{},\"final_base_start_end\":{}}}", i, json_str(&format!("{:?}", adds)), json_str(&format!("{:?}", fin))));
+    }
+}
 
 #[derive(Clone, Debug)]
 enum Derived { At(u64), In(u64, u64), CountGe(u64) }
@@ -80,7 +178,7 @@ fn whole_file_cases(shards: &mut Shards, stats: &mut Stats) {
             for (notion, d) in defined.iter().enumerate() {
                 stats.inc("whole_file_cases");
                 if *d { stats.inc(&format!("whole_file_defined_{}_{}", NOTIONS[notion], HISTORIES[h])); }
-                let case = format!("mkCase [] 0%N [] [] [] [] [({}, {}, {})] []", coq_n(h as u64), coq_n(notion as u64), coq_bool(*d));
+                let case = format!("mkCase [] 0%N [] [] [] [] [({}, {}, {})] [] []", coq_n(h as u64), coq_n(notion as u64), coq_bool(*d));
                 let replay = format!("{{\"whole_file\":true,\"rules_source\":{},\"history\":\"{}\",\"previous_file_hex\":\"{}\",\"block_hex\":\"{}\",\"notion\":\"{}\",\"defined_in_block_mode\":{}}}",
                     json_str(WHOLE), HISTORIES[h], hex(data), hex(blk), NOTIONS[notion], d);
                 shards.push(case, replay);
@@ -104,8 +202,9 @@ pub fn run(args: &[String]) -> i32 {
     let mut samples: Vec<String> = vec![];
     let mut idx = 0;
     whole_file_cases(&mut shards, &mut stats);
+    match_list_cases(&mut rng, (n / 4).max(40), &mut shards, &mut stats);
     // minimised past failures run first: (patterns, file, blocks, context size)
-    let mut corpus: Vec<(Vec<usize>, Vec<u8>, Vec<(usize, usize)>, usize, Vec<(u64, Vec<u8>, bool)>)> = vec![
+    let mut corpus: Vec<Forced> = vec![
         // a greedy regexp cut by the edge of the first of two overlapping blocks: the later block extends the match
         (vec![9], b"ghijklmnopqrstux01234yz ghijklmnopqr".to_vec(), vec![(0, 20), (9, 27)], 0, vec![]),
         (vec![9], b"ghijklmnopqrstux01234yz ghijklmnopqr".to_vec(), vec![(9, 27), (0, 20)], 0, vec![]),
@@ -116,7 +215,16 @@ pub fn run(args: &[String]) -> i32 {
         // no block at all (finish() used to panic)
         (vec![0, 1], b"Lorem abc dolor abab".to_vec(), vec![], 0, vec![]),
         // thorough seed 1 #912: Match::data() panics (unwrap on None) after overlapping blocks
+        // chained patterns (jump range > 200) entirely inside a block whose base is not 0
+        (vec![7], { let mut v = b"ghijkABC".to_vec(); v.extend(std::iter::repeat(b'.').take(250)); v.extend_from_slice(b"DEFghij"); v }, vec![(3, 262), (0, 100), (150, 115)], 0, vec![]),
+        (vec![17], { let mut v = b"ghijkKLM".to_vec(); v.extend(std::iter::repeat(b'.').take(120)); v.extend_from_slice(b"NOPgh NOP"); v }, vec![(5, 130), (2, 131)], 3, vec![]),
         (vec![9, 8, 2], b" _op s.q js sjpzx01234ivjk.prqkyizpzp iyumm. g tgj_hritgrty_qrtyt hthvksvlmjkmvjy gqhynmiz ngoo.nsz_  ihk.v vuutaaabyt.m _kio.hhsklh_h tvztjh.jqlrmyyl pjgrlhku_x01".to_vec(), vec![(0, 20), (9, 119), (128, 3), (139, 24), (34, 0)], 16, vec![]),
+        // the same start found again LONGER in a later overlapping block with another base while a higher-offset match is
+        // already listed (binary-search arm of MatchList::add): /abc+/ with (10,"abc") (20,"abc") (8,"..abccc")
+        (vec![13], b"........abccc.......abc.....".to_vec(), vec![(10, 3), (20, 3), (8, 7)], 0, vec![]),
+        (vec![13], b"........abccc.......abc.....".to_vec(), vec![(10, 3), (20, 3), (8, 7)], 2, vec![]),
+        (vec![13], b"........abccc.......abc.....".to_vec(), vec![(20, 3), (10, 3), (8, 7)], 0, vec![]),
+        (vec![14], b"..foobarbaz....foobar.......".to_vec(), vec![(2, 6), (14, 8), (0, 12)], 0, vec![]),
         // a pattern anchored at 4: a block whose base is past the anchor and that begins with the literal
         // (a subtraction saturating at 0 would report a match at the block's base)
         (vec![1], b"ghijabc klm abc nopq abcab".to_vec(), vec![(0, 12), (12, 14)], 0, vec![(4, b"abc".to_vec(), true)]),
@@ -126,7 +234,9 @@ pub fn run(args: &[String]) -> i32 {
     ];
     while shards.total < n {
         idx += 1;
-        let forced = if corpus.is_empty() { None } else { Some(corpus.remove(0)) };
+        let from_corpus = !corpus.is_empty();
+        let forced = if from_corpus { Some(corpus.remove(0)) } else if rng.chance(1, 3) { stats.inc("straddle_scenarios"); Some(gen_straddle(&mut rng)) }
+            else if rng.chance(1, 6) { stats.inc("chain_scenarios"); Some(gen_chain(&mut rng)) } else { None };
         // patterns of this case
         let mut np = 2 + rng.below(4) as usize;
         let mut chosen: Vec<usize> = vec![];
@@ -217,7 +327,7 @@ pub fn run(args: &[String]) -> i32 {
         if rng.chance(1, 2) { for i in (1..blocks.len()).rev() { let j = rng.below(i as u64 + 1) as usize; blocks.swap(i, j); } stats.inc("shuffled"); }
         let mut ctx = *rng.pick(&[0usize, 0, 3, 16]);
         let mut used = rng.below(3);
-        if let Some(f) = &forced { blocks = f.2.clone(); ctx = f.3; used = 0; }
+        if let Some(f) = &forced { blocks = f.2.clone(); ctx = f.3; if from_corpus { used = 0; } }
 
         // per-block reference
         let mut per_block: Vec<Vec<Vec<M>>> = vec![];
@@ -265,7 +375,7 @@ pub fn run(args: &[String]) -> i32 {
         let (block_res, verdicts, anch) = match res { Ok(x) => x, Err(e) => {
             // a panic is a violation of its own: write a case that fails S (no block results, all per-block results lost)
             stats.inc("block_scanner_panicked");
-            let case = format!("mkCase {} {} {} {} {} [(0%N, DCountGe 0%N, false)] [] []", coq_bytes(&file), coq_n(ctx as u64), coq_list(&blocks, |b| format!("({}, {})", coq_n(b.0 as u64), coq_n(b.1 as u64))),
+            let case = format!("mkCase {} {} {} {} {} [(0%N, DCountGe 0%N, false)] [] [] []", coq_bytes(&file), coq_n(ctx as u64), coq_list(&blocks, |b| format!("({}, {})", coq_n(b.0 as u64), coq_n(b.1 as u64))),
                 coq_list(&per_block, |pb| coq_list(pb, |ms| coq_list(ms, |m| format!("({},{},{})%N", m.0, m.1, m.2)))), coq_list(&vec![0; np], |_| "[]".to_string()));
             shards.push(case, format!("{{\"index\":{},\"panic\":{},\"rules_source\":{},\"file_hex\":\"{}\",\"blocks\":{},\"context_size\":{},\"scanner\":{}}}", idx, json_str(&e), json_str(&src), hex(&file), json_str(&format!("{:?}", blocks)), ctx, used));
             continue;
@@ -284,12 +394,19 @@ pub fn run(args: &[String]) -> i32 {
         let coq_anch = coq_list(&anchored.iter().zip(anch.iter()).collect::<Vec<_>>(), |((n, lit, _), res)| format!("({}, {}, {}, {})", coq_n(*n), coq_bytes(lit),
             coq_bool(res.is_some()), coq_list(res.as_deref().unwrap_or(&[]), |b| coq_bm(b))));
         if !anchored.is_empty() { stats.inc("cases_with_anchored_patterns"); }
+        {   // a start reported with different lengths by two blocks with different bases
+            let mut seen = false;
+            for (bi, pb) in per_block.iter().enumerate() { for (bj, pc) in per_block.iter().enumerate() { if bi < bj && blocks[bi].0 != blocks[bj].0 {
+                for p in 0..np { for m in &pb[p] { for m2 in &pc[p] { if m.0 + blocks[bi].0 as u64 == m2.0 + blocks[bj].0 as u64 && m.1 != m2.1 { seen = true; } } } }
+            } } }
+            if seen { stats.inc("same_start_different_length_in_two_blocks"); }
+        }
         for ((n, lit, _), res) in anchored.iter().zip(anch.iter()) {
             if blocks.iter().any(|b| b.0 as u64 > *n && file[b.0..b.0 + b.1].starts_with(lit)) { stats.inc("anchored_block_past_anchor_starts_with_literal"); }
             if blocks.iter().any(|b| b.0 as u64 == *n) { stats.inc("anchored_block_at_anchor"); }
             if res.as_ref().map_or(false, |v| !v.is_empty()) { stats.inc("anchored_match_reported"); }
         }
-        let case = format!("mkCase {} {} {} {} {} {} [] {}", coq_bytes(&file), coq_n(ctx as u64),
+        let case = format!("mkCase {} {} {} {} {} {} [] {} []", coq_bytes(&file), coq_n(ctx as u64),
             coq_list(&blocks, |b| format!("({}, {})", coq_n(b.0 as u64), coq_n(b.1 as u64))),
             coq_list(&per_block, |pb| coq_list(pb, |ms| coq_list(ms, |m| format!("({},{},{})%N", m.0, m.1, m.2)))),
             coq_list(&block_res, |ms| coq_list(ms, |b| format!("(({},{},{})%N, {}, {}, {})", b.m.0, b.m.1, b.m.2, coq_bytes(&b.data), coq_bytes(&b.ctx), coq_n(b.rel)))),
